@@ -222,6 +222,9 @@ def run(ctx, pid):
 
 @register("C01")
 def c01(ctx):
+    if not ctx.quick and not ctx.replay:
+        # the fee equation's two sides never wrap in the field for 32-bit amounts (TLAPS, production constants)
+        core.tlaps_lemmas(ctx)
     return run(ctx, "C01")
 
 
